@@ -298,7 +298,7 @@ def run(ctx):
     ctx.cross_check_vm(212, args, model, n=100)
     for c, e in zip(allc, exp):
         stats_for(ctx, c, e, (1 << max(0, len(c['data']) - 1)) * 2 + 1)
-    ctx.sample({'bytes': ucases[0]['data'], 'cfg': {k: ucases[0][k] for k in KEYS}, 'model_bulk': exp[len(cases)], 'implementation': got[len(cases)]})
+    ctx.sample_safe(lambda: {'bytes': ucases[0]['data'], 'cfg': {k: ucases[0][k] for k in KEYS}, 'model_bulk': exp[len(cases)], 'implementation': got[len(cases)]})
 
     # invalid / truncated UTF-8
     i_exp, i_args, i_model = bulk_expected(inv, [[]] * len(inv))
